@@ -163,7 +163,7 @@ Proof. exact post_action_roundtrip. Qed.
 (* The property on the model of handle_message, for ALL request bytes [req]: if the request
    carries the opcode / unique / size of [q], the operation was called (two calls: the id
    translation and the operation), the filesystem answered [fs] of a kind that operation
-   returns ([kind_ok]; [fits]: read data / directory records fit the buffer, names < 2^32
+   returns ([kind_ok]; [reply_fits]: read data / directory records fit the buffer, names < 2^32
    bytes) and the reply fits the reply buffer, then exactly one packet reaches /dev/fuse and
    the kernel-side decoder reads [fs] back out of it. *)
 Theorem C03_roundtrip : forall cfg cap req q fs,
